@@ -12,6 +12,9 @@ fn main() {
         std::process::exit(2);
     }
     let prop = args[1].clone();
+    if prop == "noop" {
+        return;
+    }
     let seed: u64 = arg(&args, "--seed").and_then(|s| s.parse().ok()).unwrap_or(1);
     let tier = match arg(&args, "--tier").as_deref() {
         Some("thorough") => Tier::Thorough,
